@@ -988,7 +988,7 @@ func lemmaLastEncodePrefix(opts []Option, o Option, i int) {
 // The massive (pipeline) implementations are not under contract (C10, C11 are not applicable to this technique).
 //@ func gtree.treePipeline.outputProgrammably
 //@   requires ok: pipelineTreeOK(t, cfg) && root != nil && root.hierarchy == 1
-//@   modifies Node.brnch.value, Node.brnch.path, out, wfail, defaultGrowSpreaderSimple.w, defaultSpreaderSimple.w, counter.n, encTrace, encoders, spText, errSent, stageSpread, stageWriter, ctxCancelled, splSent, lnNodes, lnRootCount, lnRejected, splSharp, splCutOK, ctxDoneSeen, gcRecv, errRecv
+//@   modifies Node.brnch.value, Node.brnch.path, out, wfail, defaultGrowSpreaderSimple.w, defaultSpreaderSimple.w, counter.n, encTrace, encoders, spText, dryRoots, errSent, stageSpread, stageWriter, ctxCancelled, splSent, lnNodes, lnRootCount, lnRejected, splSharp, splCutOK, ctxDoneSeen, gcRecv, errRecv
 //@   ensures staged [C04]: cfg.encode >= encodeJSON && cfg.encode <= encodeTOML && !cfg.dryrun ==> stageSpread == t.spreader && stageWriter == w
 //@   ensures reported [C14]: result == nil ==> errRecv == old(errRecv)
 //@   ensures dryfs [C09]: fsOps == old(fsOps) && fsFailed == old(fsFailed)
@@ -1005,7 +1005,7 @@ func lemmaLastEncodePrefix(opts []Option, o Option, i int) {
 //@   requires nn: root != nil && root.hierarchy == 1
 
 //@ contract fromRootOutput
-//@   modifies Node.brnch.value, Node.brnch.path, out, wfail, defaultGrowSpreaderSimple.w, defaultSpreaderSimple.w, counter.n, encTrace, encoders, lastConfig, spText, errSent, stageSpread, stageWriter, ctxCancelled, splSent, lnNodes, lnRootCount, lnRejected, splSharp, splCutOK, ctxDoneSeen, gcRecv, errRecv
+//@   modifies Node.brnch.value, Node.brnch.path, out, wfail, defaultGrowSpreaderSimple.w, defaultSpreaderSimple.w, counter.n, encTrace, encoders, lastConfig, spText, dryRoots, errSent, stageSpread, stageWriter, ctxCancelled, splSent, lnNodes, lnRootCount, lnRejected, splSharp, splCutOK, ctxDoneSeen, gcRecv, errRecv
 //@   ghostset lastConfig := cfg
 //@   ensures nilnode [C03]: root == nil ==> result == ErrNilNode && out == old(out) && wfail == old(wfail)
 //@   ensures notroot [C03]: root != nil && root.hierarchy != 1 ==> result == ErrNotRoot && out == old(out) && wfail == old(wfail)
@@ -1155,7 +1155,7 @@ func lemmaRawAllIsRenderAll(last, mid branchFormat, roots []*Node, i int) {
 
 //@ func gtree.treePipeline.output
 //@   requires ok: pipelineTreeOK(t, cfg)
-//@   modifies Node.children, Node.parent, Node.brnch.value, Node.brnch.path, list.List.view, list.Element.backOf, counter.n, bufio.Scanner.pos, bufio.Scanner.failed, markdown.Parser.isSharpRoot, markdown.Parser.spaces, markdown.Parser.sep, out, wfail, defaultSpreaderSimple.w, encTrace, encoders, lastForest, lnNodes, rsRoots, rsFailed, rsStopped, rsErr, gsRoots, gsFailed, gsStopped, gsErr, spRoots, spText, esFailed, errSent, stageSpread, stageWriter, ctxCancelled, splSent, lnRootCount, lnRejected, splSharp, splCutOK, ctxDoneSeen, gcRecv, errRecv
+//@   modifies Node.children, Node.parent, Node.brnch.value, Node.brnch.path, list.List.view, list.Element.backOf, counter.n, bufio.Scanner.pos, bufio.Scanner.failed, markdown.Parser.isSharpRoot, markdown.Parser.spaces, markdown.Parser.sep, out, wfail, defaultSpreaderSimple.w, encTrace, encoders, lastForest, lnNodes, rsRoots, rsFailed, rsStopped, rsErr, gsRoots, gsFailed, gsStopped, gsErr, spRoots, spText, dryRoots, esFailed, errSent, stageSpread, stageWriter, ctxCancelled, splSent, lnRootCount, lnRejected, splSharp, splCutOK, ctxDoneSeen, gcRecv, errRecv
 //@   ensures staged [C04]: cfg.encode >= encodeJSON && cfg.encode <= encodeTOML && !cfg.dryrun ==> stageSpread == t.spreader && stageWriter == w
 //@   ensures reported [C14]: result == nil ==> errRecv == old(errRecv)
 //@   ensures dryfs [C09]: fsOps == old(fsOps) && fsFailed == old(fsFailed)
@@ -1166,7 +1166,7 @@ func lemmaRawAllIsRenderAll(last, mid branchFormat, roots []*Node, i int) {
 //@   param callback follows walkCallback
 
 //@ contract fromMarkdownOutput
-//@   modifies Node.children, Node.parent, Node.brnch.value, Node.brnch.path, list.List.view, list.Element.backOf, counter.n, bufio.Scanner.pos, bufio.Scanner.failed, markdown.Parser.isSharpRoot, markdown.Parser.spaces, markdown.Parser.sep, out, wfail, defaultSpreaderSimple.w, encTrace, encoders, libWriter, libFailed, libCalls, lastCtxLive, lastConfig, lastForest, lnNodes, rsRoots, rsFailed, rsStopped, rsErr, gsRoots, gsFailed, gsStopped, gsErr, spRoots, spText, esFailed, errSent, stageSpread, stageWriter, ctxCancelled, splSent, lnRootCount, lnRejected, splSharp, splCutOK, ctxDoneSeen, gcRecv, errRecv
+//@   modifies Node.children, Node.parent, Node.brnch.value, Node.brnch.path, list.List.view, list.Element.backOf, counter.n, bufio.Scanner.pos, bufio.Scanner.failed, markdown.Parser.isSharpRoot, markdown.Parser.spaces, markdown.Parser.sep, out, wfail, defaultSpreaderSimple.w, encTrace, encoders, libWriter, libFailed, libCalls, lastCtxLive, lastConfig, lastForest, lnNodes, rsRoots, rsFailed, rsStopped, rsErr, gsRoots, gsFailed, gsStopped, gsErr, spRoots, spText, dryRoots, esFailed, errSent, stageSpread, stageWriter, ctxCancelled, splSent, lnRootCount, lnRejected, splSharp, splCutOK, ctxDoneSeen, gcRecv, errRecv
 //@   ghostset lastConfig := cfg
 //@   ghostset libWriter := w
 //@   ghostset libFailed := old(libFailed) || result != nil
@@ -1498,7 +1498,7 @@ func fsExistsAt(p string) bool { _, err := os.Stat(p); return !os.IsNotExist(err
 //@   ensures reported [C14]: result == nil ==> errRecv == old(errRecv)
 //@ func gtree.treePipeline.mkdirProgrammably
 //@   requires ok: pipelineTreeOK(t, cfg) && root != nil && root.hierarchy == 1
-//@   modifies Node.brnch.value, Node.brnch.path, fsOps, fsFailed, defaultGrowerSimple.enabledValidation, out, wfail, counter.n, spText, errSent, mkSeen, ctxCancelled, splSent, lnNodes, lnRootCount, lnRejected, splSharp, splCutOK, ctxDoneSeen, gcRecv, errRecv
+//@   modifies Node.brnch.value, Node.brnch.path, fsOps, fsFailed, defaultGrowerSimple.enabledValidation, out, wfail, counter.n, spText, dryRoots, errSent, mkSeen, ctxCancelled, splSent, lnNodes, lnRootCount, lnRejected, splSharp, splCutOK, ctxDoneSeen, gcRecv, errRecv
 //@   ensures reported [C14]: result == nil ==> errRecv == old(errRecv)
 //@   ensures dryrun [C09]: cfg.dryrun ==> fsOps == old(fsOps) && fsFailed == old(fsFailed)
 //@   carries rootStream: rootChan
@@ -1517,7 +1517,7 @@ func fsExistsAt(p string) bool { _, err := os.Stat(p); return !os.IsNotExist(err
 //@ applies fromMarkdownMkdir to gtree.MkdirFromMarkdown, gtree.Mkdir
 
 //@ contract fromRootMkdir
-//@   modifies Node.brnch.value, Node.brnch.path, fsOps, fsFailed, defaultGrowerSimple.enabledValidation, out, wfail, counter.n, lastConfig, spText, errSent, mkSeen, ctxCancelled, splSent, lnNodes, lnRootCount, lnRejected, splSharp, splCutOK, ctxDoneSeen, gcRecv, errRecv
+//@   modifies Node.brnch.value, Node.brnch.path, fsOps, fsFailed, defaultGrowerSimple.enabledValidation, out, wfail, counter.n, lastConfig, spText, dryRoots, errSent, mkSeen, ctxCancelled, splSent, lnNodes, lnRootCount, lnRejected, splSharp, splCutOK, ctxDoneSeen, gcRecv, errRecv
 //@   ghostset lastConfig := cfg
 //@   ensures nilnode [C03]: root == nil ==> result == ErrNilNode && fsOps == old(fsOps)
 //@   ensures notroot [C03]: root != nil && root.hierarchy != 1 ==> result == ErrNotRoot && fsOps == old(fsOps)
